@@ -307,6 +307,29 @@ def generate(scratch, hdir, disabled=None):
         name = spec["name"]
         mod = spec["module"]
         out.setdefault(mod, [])
+        if spec.get("kind") == "variant_ctor":
+            # constructor of one enum variant whose field list is read from the current source
+            # (a harness that spelled the fields out would stop compiling when a field is added
+            # or removed, which turns a detectable change into an inconclusive run)
+            try:
+                src = open(os.path.join(scratch, spec["file"])).read()
+                m = re.search(r"enum\s+" + spec["enum"] + r"\b.*?\b" + spec["variant"] + r"\s*\{(.*?)\}", src, re.S)
+                if not m:
+                    raise ValueError(f"variant {spec['variant']} of {spec['enum']} not found")
+                body = re.sub(r"//[^\n]*", "", m.group(1))
+                fields = re.findall(r"(\w+)\s*:\s*([^,]+?)\s*(?:,|$)", body.strip(), re.S)
+                inits = []
+                for fname, fty in fields:
+                    fty = " ".join(fty.split())
+                    if fty not in spec["defaults"]:
+                        raise ValueError(f"no default value for field {fname}: {fty}")
+                    inits.append(f"{fname}: {spec['defaults'][fty]}")
+                out[mod].append(f"// ---- constructor {name}: fields of {spec['enum']}::{spec['variant']} read from {spec['file']} on this run\npub(crate) fn {spec['fn']}() -> {spec['ret']} {{\n    {spec['path']} {{ " + ", ".join(inits) + " }\n}\n")
+                info[name] = {"ok": True, "file": spec["file"], "func": f"enum {spec['enum']}::{spec['variant']}", "lines": [0, 0], "sha1": hashlib.sha1(body.encode()).hexdigest()[:16], "substitutions": [], "live_in": ""}
+            except Exception as e:  # noqa: BLE001
+                out[mod].append(f"// ---- constructor {name}: UNAVAILABLE ({e})\npub(crate) fn {spec['fn']}() -> {spec['ret']} {{\n    panic!(\"constructor {name} could not be generated from the current source\")\n}}\n")
+                info[name] = {"ok": False, "file": spec["file"], "func": spec["variant"], "why": str(e)}
+            continue
         params = spec["params"]
         ctx_pro = ""
         if spec.get("ctx_fields"):
